@@ -312,6 +312,13 @@ def fo_args(S, *, ident=True, wide=True):
         for q in small:
             if p.quantifiers or q.quantifiers:
                 add(arg(q, (p,)))
+    # negated quantifier over a negated body against literals and plain quantifications (an instance that drops a double negation is
+    # only wrong where ~~A and A differ)
+    q3 = [~Quantified(s.quantifier, x, ~Predicated(F, (x,))) for s in q1]
+    for p in q3:
+        for q in q1 + [lits[0], lits[4]]:
+            add(arg(q, (p,)))
+            add(arg(p, (q,)))
     if wide:
         if small_mode:
             pool = [lits[0], lits[1], lits[4], lits[5], lits[3]] + q1 + [~q1[1]]
